@@ -113,7 +113,14 @@ struct ZchDynamicState {
 impl ZchDynamicState {
     fn zchd_tick(&mut self, is_caps_word_active: bool) {
         const TICKS_UNTIL_FORCE_STATE_RESET: u16 = 10000;
-        self.zchd_ticks_since_state_change += 1;
+        // This counter drives the contingency reset below for state that got stuck. Ticks do not
+        // happen while kanata is idle and blocks on input, and an idle period must not be
+        // observable: the counter only runs while this state is not idle.
+        if self.zchd_is_idle() {
+            self.zchd_ticks_since_state_change = 0;
+        } else {
+            self.zchd_ticks_since_state_change += 1;
+        }
         self.zchd_is_caps_word_active = is_caps_word_active;
         match self.zchd_enabled_state {
             ZchEnabledState::WaitEnable => {
@@ -194,7 +201,11 @@ impl ZchDynamicState {
     /// Returns true if dynamic zch state is such that idling optimization can activate.
     fn zchd_is_idle(&self) -> bool {
         let is_idle = self.zchd_enabled_state == ZchEnabledState::Enabled
-            && self.zchd_input_keys.zchik_is_empty();
+            && self.zchd_input_keys.zchik_is_empty()
+            // a modifier that is (or is stuck as) held is state the reset may still clear
+            && !self.zchd_is_lsft_active
+            && !self.zchd_is_rsft_active
+            && !self.zchd_is_altgr_active;
         log::trace!("zch is idle: {is_idle}");
         is_idle
     }
